@@ -553,8 +553,8 @@ func forgedTxHash(n *cnode, hs []uint64) {
 	from := rng.Intn(cAccts)
 	to := (from + 1) % cAccts
 	tx := n.mkTx(from, n.stateNonce(from)+1, n.addrs[to], big.NewInt(7), types.TxType_TRANSFER, nil)
-	blk, _, err := n.produce(parent, []*types.Tx{tx})
-	if err != nil || len(blk.GetBody().GetTxs()) != 1 {
+	blk, pbs, err := n.produce(parent, []*types.Tx{tx})
+	if err != nil || len(blk.GetBody().GetTxs()) != 1 || len(pbs.Receipts().Get()) != 1 {
 		run.Count("forged-tx-hash-skipped")
 		return
 	}
@@ -596,6 +596,14 @@ func forgedTxHash(n *cnode, hs []uint64) {
 	}
 	// node level: the header commits to the carried hashes and is signed by the genuine producer
 	forged.Header.TxsRootHash = types.CalculateTxsRootHash(forged.Body.Txs)
+	// ... and to the receipt the execution of that transaction yields (the receipt names the carried hash)
+	frs := cloneReceiptList(pbs.Receipts().Get())
+	frs[0].TxHash = t.Hash
+	format := 1
+	if hs[0] <= uint64(no) {
+		format = 2
+	}
+	forged.Header.ReceiptsRootHash = rootIn(frs, pbs.Receipts(), format, no)
 	forged.Header.Sign = nil
 	forged.Hash = nil
 	if err := forged.Sign(p2pkey.NodePrivKey()); err != nil {
@@ -606,6 +614,13 @@ func forgedTxHash(n *cnode, hs []uint64) {
 	err = n.receive(wire(forged))
 	run.Eval(fmt.Sprintf("forged-tx-hash %d %d", no, kind), true)
 	run.Count("forged-tx-hash-block")
+	if err != nil {
+		msg := err.Error()
+		if len(msg) > 48 {
+			msg = msg[:48]
+		}
+		run.Count("forged-tx-hash-refused: " + msg)
+	}
 	if err == nil {
 		run.Fail("the chain service connected a block whose transaction root commits to a carried transaction hash that is not the digest of the transaction",
 			map[string]interface{}{"hardfork": hs, "block_no": no, "carried": hx(t.Hash), "digest": hx(t.CalculateTxHash())})
